@@ -573,8 +573,9 @@ def replay(prop, path):
     os.makedirs(WORK, exist_ok=True)
     m = re.search(r"^# suite (\S+) seed (\d+) tier (\S+) extra ?(.*)$", text, flags=re.M)
     sig = re.search(r"^# signature (\S+)", text, flags=re.M)
-    if "comp=flags" in text and m:
-        # Rust-vs-Rust comparisons are made inside the harness: re-run that suite with the recorded seed
+    if m and ("comp=flags" in text or m.group(1) == "long"):
+        # Rust-vs-Rust comparisons are made inside the harness, and a late-position case of the long-run suite is the
+        # end of a history of up to 2e6 steps that the case itself does not contain: re-run that suite with the recorded seed
         sh(["lake", "build", "driver"], cwd=LEAN)
         r = run_suite(exe, m.group(1), int(m.group(2)), m.group(3), f"replay-{prop}", m.group(4).split())
         hits = [mm for mm in r["mismatches"] if sig is None or sig_method(mm) == sig.group(1)]
